@@ -34,7 +34,7 @@ def main():
     thorough = rep.tier == "thorough"
 
     # ---- spec -> code ------------------------------------------------------
-    maxlen = 9 if thorough else 7
+    maxlen = 8 if thorough else 7
     cfg = tlc.cfg_text(constants={"Vals": {1, 3, 5, 7, 9}, "Probes": set(range(0, 11)),
                                   "MaxLen": maxlen, "Mode": "export"},
                        invariants=["Emit", "Laws"])
